@@ -202,7 +202,10 @@ FAIL_CLASSES = ["ValueError", "KeyError", "CustomError", "StrError",
                 "ZeroDivisionError", "UnicodeError", "AttributeError",
                 "RecursionError", "KeyboardInterrupt", "SystemExit",
                 "GeneratorExit", "StopIteration", "AssertionError",
-                "Exception", "Exception", "UserWarning"]
+                "Exception", "Exception", "UserWarning",
+                # the library's own error class raised by application code,
+                # and an application class that derives from it
+                "RenderError", "AppRenderError"]
 LEADS = ["", "\n", "é日本\n  ", "<!-- c -->\n", "<b>x</b> "]
 FAIL_SITES = {
     "text": "<i>{lead}${{boom('{cls}', 'T')}}</i>",
@@ -551,10 +554,15 @@ class Nested(Part):
                 [None, None, "str", "repr", "traceback", "args"]),
                 min_size=3, max_size=3),
             "renders": st.integers(1, 2),
+            # the failing markup stands in a macro that is rendered where
+            # it is defined, behind other expressions of the template
+            "inplace": st.booleans(),
         })
 
     def labels(self, case):
         yield "depth%d" % case["depth"]
+        if case.get("inplace"):
+            yield "inplace_macro"
         if any(case["peek"][:case["depth"]]):
             yield "peek"
         if any(p in ("str", "traceback")
@@ -570,8 +578,12 @@ class Nested(Part):
         for k in range(d):
             out.append(CALL_SITES[case["calls"][k]].format(
                 lead=case["leads"][k], k=k + 1))
-        out.append("<div>" + FAIL_SITES[case["site"]].format(
-            lead=case["leads"][3], cls=case["cls"]) + "</div>")
+        fail = FAIL_SITES[case["site"]].format(lead=case["leads"][3],
+                                               cls=case["cls"])
+        if case.get("inplace"):
+            fail = ('<b title="${2 + 2}">${1 + 1}</b><p metal:define-macro='
+                    '"m"><u metal:define-macro="inner">' + fail + "</u></p>")
+        out.append("<div>" + fail + "</div>")
         return out
 
     def sample(self, case):
